@@ -460,6 +460,19 @@ type faultCase struct {
 	data  []byte
 	label string
 	ex    *kernel.Step // explicit single fault for enumerations
+	// declared names a dimension field of the encoding that the fault set
+	// above its documented limit ("" if none): such an encoding must be rejected
+	declared string
+}
+
+// dimFields are the positions of the dimension fields in the native encodings
+// of the value kinds that start with them (all little-endian uint16, limit 1024).
+var dimFields = map[string]map[int]string{
+	"Allocation":  {0: "numAssets", 2: "numParts", 4: "numLocked"},
+	"Balances":    {0: "numAssets", 2: "numParts"},
+	"SubAlloc":    {32: "numAssets"},
+	"State":       {40: "numAssets", 42: "numParts", 44: "numLocked"},
+	"Transaction": {41: "numAssets", 43: "numParts", 45: "numLocked"},
 }
 
 func modLen(x int64, n int) int {
@@ -531,6 +544,9 @@ func expand(f *kernel.Step, vals []*value) (v *value, cases []faultCase) {
 		d := append([]byte(nil), b.data...)
 		putInt(d[fl.off:fl.off+fl.width], val, be)
 		add(t, d, "%d-byte field at offset %d (was %x) overwritten with %d (big-endian=%v)", fl.width, fl.off, b.data[fl.off:fl.off+fl.width], val, be)
+		if name, ok := dimFields[v.kind.name][fl.off]; ok && fl.width == 2 && binary.LittleEndian.Uint16(d[fl.off:]) > 1024 {
+			cases[len(cases)-1].declared = name
+		}
 	case "splice":
 		o := vals[modLen(f.Int("m2"), len(vals))]
 		ob, ok := o.base(t)
